@@ -889,12 +889,32 @@ func c01Registry(c c01Case) (ok bool, sig, detail string) {
 			line = "/" + name + "=v"
 		case "toggle":
 			line = "/" + name
+		case "empty":
+			line = "/" + name + "=\"\""
 		}
 		gb := c01Base()
+		what := fmt.Sprintf("registry history %v, step %d", c.Values, step)
+		if strings.HasPrefix(form, "built-") {
+			// a record made by a program rather than read: the qualifier (valued, empty, or repeated) sits between two others
+			vals := map[string][]string{"built-value": {"v"}, "built-empty": {""}, "built-two": {"v", "w"}}[form]
+			// (a name the reader was shown as a bare flag earlier in the history cannot carry a value, like /pseudo: outside what gts can write)
+			isToggle := false
+			for _, prev := range c.Values[:step] {
+				isToggle = isToggle || prev == name+":toggle"
+			}
+			if isToggle && vals[0] != "" {
+				continue
+			}
+			gb.Table[1].Props = gts.Props{{"gene", "g"}, append([]string{name}, vals...), {"note", "after"}}
+			gb.Table = append(gb.Table, gts.Feature{Key: "gene", Loc: gts.Range(12, 18), Props: gts.Props{{"gene", "h"}}})
+			if ok, sig, detail := c01Roundtrip([]gts.Sequence{gb}, what+" (record built with "+name+"="+strings.Join(vals, ",")+")"); !ok {
+				return false, sig, detail
+			}
+			continue
+		}
 		w, _, _ := c01Write([]gts.Sequence{gb})
 		txt := strings.Replace(string(w), "                     /gene=\"g\"\n", "                     /gene=\"g\"\n                     "+line+"\n", 1)
 		recs, errText, pan := c01Read([]byte(txt))
-		what := fmt.Sprintf("registry history %v, step %d", c.Values, step)
 		if pan != "" {
 			return false, "read-panic", what + ": reader panics: " + pan
 		}
@@ -1127,7 +1147,7 @@ func init() {
 				}
 			}
 			// registry histories
-			events := []string{"vq1:quoted", "vq1:literal", "vq1:toggle", "vq2:quoted", "vq2:literal", "vq2:toggle"}
+			events := []string{"vq1:quoted", "vq1:literal", "vq1:toggle", "vq1:empty", "vq1:built-value", "vq1:built-empty", "vq1:built-two", "vq2:quoted", "vq2:toggle", "vq2:built-empty"}
 			var rec func(cur []string)
 			rec = func(cur []string) {
 				if len(cur) > 0 {
